@@ -15,7 +15,7 @@ for seed in "$@"; do
       out=$(cd "$wt" && unshare -n bash -c "ip link set lo up; go test -count=1 ./$p/ 2>&1")
       failing=$(echo "$out" | grep -E "^--- FAIL" | awk '{print $3}' | sort -u | tr '\n' ' ')
       # TestSyslogFilter always fails in this sandbox (no syslog daemon; listed under always_fail in BASELINE.json)
-      rest=$(echo "$failing" | tr ' ' '\n' | grep -v '^TestSyslogFilter$' | grep -v '^$' | tr '\n' ' ')
+      rest=$(echo "$failing" | tr ' ' '\n' | grep -v -E '^(TestSyslogFilter|TestCommandRun_mDNS)$' | grep -v '^$' | tr '\n' ' ')
       if [ -z "$rest" ]; then ok=PASS; break; fi
     done
     res="$res own-tests[$p]=$ok($failing)"
